@@ -26,7 +26,7 @@ ASSUMPTIONS = [
   "configured colour / background / alignment judged on the computed styles of the reference ISD of the filtered document",
 ]
 REQUIRED = ["filtered", "cfg:color", "cfg:bg_color", "cfg:preserve_text_align", "timeline:compared", "idempotence:compared",
-            "class:position-region", "class:no-body", "class:regions:many", "class:timed-region", "regions:merged", "snap:align-preserved", "class:region-level-styles"]
+            "class:position-region", "class:no-body", "class:regions:many", "class:timed-region", "regions:merged", "snap:align-preserved", "class:region-level-styles", "class:twin-regions"]
 SHARD_TIMEOUT = {"quick": 900, "thorough": 7200}
 N = {"quick": 90, "thorough": 2500}
 ALLOWED = {"DisplayAlign", "Extent", "Origin", "Color", "BackgroundColor", "TextAlign"}
@@ -221,10 +221,12 @@ def check(ctx, adoc0, cfg, classes=()):
     ri = refisd.compute_isd(post, t)
     rpre = refisd.compute_isd(pre, t) if cfg.get("preserve_text_align") else None
     pre_align = {}
+    pre_shown = set()      # (paragraph uid, region id) pairs presented before the filter, whatever the source of the alignment
     if rpre is not None:
       for r in rpre.regions:
         for n in r.walk():
           if n.kind == "P":
+            pre_shown.add((n.src_uid, r.id))
             # judged only when the alignment stems from a specified value (on content or on the region): an animated value is
             # removed with the animation
             o = n
@@ -256,7 +258,7 @@ def check(ctx, adoc0, cfg, classes=()):
             # the paragraph as it was shown in this region, or in a region that has been merged away
             # (the latter only in documents without hiding styles, where a paragraph newly shown in a region can only come from a merge)
             cands = [v for rid, v in pre_align[pre_uid[n.src_uid]] if rid == r.id]
-            if not cands and not hiding:
+            if not cands and not hiding and (pre_uid[n.src_uid], r.id) not in pre_shown:
               cands = [v for rid, v in pre_align[pre_uid[n.src_uid]] if rid not in post_regs]
             if cands and all(v[1] for v in cands):
               ctx.count("snap:align-preserved")
@@ -302,12 +304,44 @@ def run(ctx, params):
     if i % 6 == 1 and len(adoc0.regions) >= 2:
       # regions that are candidates for merging (same timing) but carry inheritable styles of their own, which the configuration keeps
       ctx.count("class:region-level-styles")
+      strip_hiders(adoc0)
       for r in adoc0.regions:
         r.begin = r.end = None
         r.anims = [a for a in r.anims if a[0] not in ("TextAlign", "Color")]
-        r.styles["TextAlign"] = ("E", "TextAlignType", rng.choice(["start", "center", "end"]))
+        ta = rng.choice(["start", "start", "center", "end", None])
+        if ta is None:
+          r.styles.pop("TextAlign", None)      # unspecified: the document's initial value applies, not the spec default
+        else:
+          r.styles["TextAlign"] = ("E", "TextAlignType", ta)
         if rng.random() < 0.5:
           r.styles["Color"] = ("C", rng.choice([(255, 0, 0, 255), (0, 255, 0, 255), (255, 255, 255, 255)]))
+      if rng.random() < 0.5:
+        adoc0.initials["TextAlign"] = ("E", "TextAlignType", rng.choice(["end", "center"]))
+      if rng.random() < 0.5:
+        # twin regions: identical but for one preserved style, which one of them leaves unspecified and the other sets to the
+        # value the specification (not necessarily this document) uses as initial value
+        a_, b_ = adoc0.regions[0], adoc0.regions[-1]
+        b_.styles = dict(a_.styles)
+        b_.anims = list(a_.anims)
+        prop, dflt = "TextAlign", ("E", "TextAlignType", "start")
+        first, second = (a_, b_) if rng.random() < 0.7 else (b_, a_)
+        first.styles.pop(prop, None)
+        second.styles[prop] = dflt
+        adoc0.initials["TextAlign"] = ("E", "TextAlignType", rng.choice(["end", "center"]))
+        if adoc0.body is not None:
+          ps = [el for el in adoc0.body.walk() if el.kind == "P"]
+          if ps:
+            q = rng.choice(ps)
+            q.region_id, q.region_ok = second.id, True
+            q.styles.pop("TextAlign", None)
+            q.anims = [x for x in q.anims if x[0] != "TextAlign"]
+        ctx.count("class:twin-regions")
+      if adoc0.body is not None and rng.random() < 0.6:
+        # every paragraph names its region, so that it is presented in that region only and follows it through a merge
+        rids = [r.id for r in adoc0.regions]
+        for el in adoc0.body.walk():
+          if el.kind == "P" and el.region_id is None:
+            el.region_id, el.region_ok = rng.choice(rids), True
       cfg["preserve_text_align"] = True
       cfg.pop("color", None)
     check(ctx, adoc0, cfg, classes)
